@@ -120,6 +120,32 @@ impl World {
         }
         // ---- ghost uncommitted accounting: entries appended by this node while it leads
         self.account_uncommitted(c);
+        // ---- ghost window capacities: progress objects are (re)created with the configured
+        // default by membership changes and snapshot restores; a resize request sets the target
+        {
+            let restored = c.post.snap_index != 0 && c.post.snap_index != c.pre.snap_index;
+            let node = self.nodes.get_mut(&n).unwrap();
+            if restored {
+                node.want_cap.clear();
+            }
+            let keys: Vec<u64> = node.want_cap.keys().cloned().collect();
+            for k in keys {
+                if !c.post.prs_keys.contains(&k) || !c.pre.prs_keys.contains(&k) {
+                    node.want_cap.remove(&k);
+                }
+            }
+            if let CallKind::ApplyConf { cc, .. } = c.kind {
+                // a change that names a peer may remove and re-create its progress (default capacity)
+                for ch in cc.get_changes() {
+                    node.want_cap.insert(ch.node_id, usize::MAX); // unknown until the next resize request
+                }
+            }
+            if let CallKind::Knob(Knob::MaxInflight { peer, cap }) = c.kind {
+                if c.post.prs_keys.contains(peer) {
+                    node.want_cap.insert(*peer, *cap);
+                }
+            }
+        }
         if c.post.role != StateRole::Leader {
             return Ok(());
         }
@@ -146,6 +172,10 @@ impl World {
                 why = Some(format!("window holds {} > capacity {}", p.win.len(), p.cap));
             } else if full_ref != p.full {
                 why = Some(format!("full() = {} but count {} cap {} pending {:?}", p.full, p.win.len(), p.cap, p.pending_cap));
+            } else if self.nodes[&n].want_cap.get(&p.id) != Some(&usize::MAX)
+                && p.pending_cap.unwrap_or(p.cap) != self.nodes[&n].want_cap.get(&p.id).cloned().unwrap_or(self.nodes[&n].cfg.max_inflight_msgs)
+            {
+                why = Some(format!("capacity {} (pending {:?}) but the capacity last requested is {}", p.cap, p.pending_cap, self.nodes[&n].want_cap.get(&p.id).cloned().unwrap_or(self.nodes[&n].cfg.max_inflight_msgs)));
             } else if p.win.is_empty() && p.pending_cap.is_some() {
                 why = Some(format!("window is empty but the reduced capacity {:?} is still pending (cap {})", p.pending_cap, p.cap));
             } else if p.state == ProgressState::Replicate && p.win.first().map(|f| *f <= p.matched).unwrap_or(false) {
@@ -177,9 +207,22 @@ impl World {
                     }
                 }
             }
+            // C13.window against the capacity the application asked for: a call that adds to the
+            // window must not take it beyond that capacity
+            if same_leader {
+                let want = self.nodes[&n].want_cap.get(&p.id).cloned().unwrap_or(self.nodes[&n].cfg.max_inflight_msgs);
+                let grew = c.pre.pr(p.id).map(|q| p.win.last() > q.win.last() && !p.win.is_empty()).unwrap_or(false);
+                if want != usize::MAX && grew && p.win.len() > want {
+                    *self.stats.entry("chk.C13.window").or_insert(0) += 1;
+                    let d = format!("leader {n} has {} unacknowledged entry-carrying appends in flight to {} after {} although max_inflight for that peer is {want} (window {:?})", p.win.len(), p.id, kind_name(c.kind), p.win);
+                    let v = self.violation("C13", "C13.window", n, d, "window_beyond_requested_capacity".into());
+                    self.gate(Err(v))?;
+                }
+            }
             if let Some(w) = why {
                 let d = format!("leader {n}, peer {} ({:?}) after {}: {w}", p.id, p.state, kind_name(c.kind));
-                return Err(self.violation("C18", "C18.window_is_fifo", n, d, "window_not_fifo".into()));
+                let v = self.violation("C18", "C18.window_is_fifo", n, d, "window_not_fifo".into());
+                self.gate(Err(v))?;
             }
             if p.cap != 256 && !p.win.is_empty() {
                 self.bump("small_window_nonempty");
